@@ -6,6 +6,7 @@ CONSTANTS
   Stay = TRUE
   WaitsForPager = TRUE
   RetriesShort = TRUE
-INVARIANTS NoEarlyExit AllDelivered NothingInvented LogOrder Emit
+  RetriesEINTR = TRUE
+INVARIANTS Quiet NoEarlyExit AllDelivered NothingInvented LogOrder Emit
 PROPERTY Terminates
 CHECK_DEADLOCK FALSE
